@@ -200,6 +200,25 @@ def cc_trees() -> list[dict]:
             root(cs, cs, call="single"), root(c(L, L, call="group"), cs)]
 
 
+def retry_trees() -> list[dict]:
+    """Chains whose middle nodes ask for a retry once (after their child returned): the thread of the first attempt
+    ends, the invocation is not final, and its second attempt needs a slot again while its parent still waits."""
+    L = leaf()
+    r = lambda *kids: {"fl": "p", "mr": 1, "sc": ["retry_until", 2, 1], "kids": list(kids), "call": "single"}  # noqa: E731
+    top = lambda *kids: {**leaf(), "kids": list(kids), "call": "single"}  # noqa: E731
+    return [top(r(L)), top(r(r(L))), top(r(L), L)]
+
+
+def expected_execs(spec: dict, path: str = "r", times: int = 1) -> dict:
+    """How often each body runs. The scripted node counts its executions per tree position: 'succeed on execution k'
+    costs k executions the first time its parent calls it and one execution for every later call."""
+    mine = (spec["sc"][1] + times - 1) if spec["sc"][0] == "retry_until" else times
+    out = {path: mine}
+    for i, k in enumerate(spec.get("kids") or []):
+        out.update(expected_execs(k, f"{path}.{i}", mine))
+    return out
+
+
 def _has_cc(spec: dict) -> bool:
     return spec.get("fl") == "c" or any(_has_cc(k) for k in spec.get("kids") or [])
 
@@ -261,13 +280,14 @@ class Scn:
             p.violation({"clause": "root-result-wrong", **base}, {"got": ex.res, "want": want}, {})
             return
         execs = tasks_prog.STATE["exec"]
-        if any(v != 1 for v in execs.values()) or len(execs) != size(d["spec"]):
-            p.violation({"clause": "a-body-ran-not-exactly-once", **base}, {"exec": dict(execs)}, {})
+        if dict(execs) != expected_execs(d["spec"]):
+            p.violation({"clause": "a-body-ran-not-exactly-once", **base},
+                        {"exec": dict(execs), "expected": expected_execs(d["spec"])}, {})
 
 
 def _tree_name(spec: dict) -> str:
     kids = spec.get("kids") or []
-    me = "c" if spec.get("fl") == "c" else ""
+    me = "c" if spec.get("fl") == "c" else ("R" if spec["sc"][0] == "retry_until" else "")
     if not kids:
         return me or "L"
     return f"{me}{spec['call'][0]}({','.join(_tree_name(k) for k in kids)})"
@@ -309,7 +329,7 @@ def run(ctx: Ctx) -> None:
         for part in par.pmap(_graph_unit, [(nids, f, depth) for f in firsts]):
             ctx.merge(part)
     # --- trees: fixed schedules for all, 1-deviation exploration for a core
-    trees = shapes(2) + cc_trees()
+    trees = shapes(2) + cc_trees() + retry_trees()
     if not only or "tree" in only:
         fixed = [dict(backend=b, slots=s, spec=t, strategy=st)
                  for b in env.BACKENDS for s in (1, 2) for t in trees for st in ("default", "rr")]
